@@ -67,6 +67,26 @@ def exact_pages(rng):
     return ops
 
 
+def page_reuse(rng):
+    """pages are filled and given back, then blocks served by the parent allocator (> 512 bytes) come to lie inside the
+    memory of those pages (the harness allocator recycles retired pages the way malloc recycles freed memory), are
+    released again, and small blocks follow: whatever the allocator left behind in a page it gave back must not matter"""
+    size, cpp = rng.choice([(512, 7), (256, 15), (128, 31), (64, 63)])
+    k = rng.choice([1, 2])
+    n = cpp * k + rng.choice([0, 0, 1])
+    ops = ["A%d:%d" % (i, size) for i in range(n)]
+    order = list(range(n))
+    rng.shuffle(order)
+    ops += ["F%d" % i for i in order] + ["Q"]
+    big = rng.randint(1, 4)
+    ops += ["A%d:%d" % (200 + i, rng.choice([513, 600, 1100, 3000])) for i in range(big)] + ["Q"]
+    rel = list(range(big))
+    rng.shuffle(rel)
+    ops += ["F%d" % (200 + i) for i in rel[: rng.randint(1, big)]] + ["Q"]
+    ops += ["A%d:%d" % (i, rng.choice([size, size, 32, 512])) for i in range(rng.randint(1, cpp + 1))] + ["Q"]
+    return ops
+
+
 def scenario(rng):
     r = rng.random()
     if r < 0.35:
@@ -76,6 +96,8 @@ def scenario(rng):
         return ["SBA 0", "MAIN " + " ".join(page_cycle(rng, size, cpp))]
     if r < 0.55:
         return ["SBA %d" % rng.choice([0, 1]), "MAIN " + " ".join(exact_pages(rng))]
+    if r < 0.63:
+        return ["SBA %d" % rng.choice([0, 1]), "MAIN " + " ".join(page_reuse(rng))]
     lines = ["SBA 1", "MAIN " + " ".join(rand_ops(rng, rng.randint(0, 8)))]
     for k in range(1, rng.randint(2, 3) + 1):
         lines.append("THREAD %d %s" % (k, " ".join(rand_ops(rng, rng.randint(4, 14), nslots=6, fill_heavy=True))))
@@ -123,6 +145,12 @@ def run(ctx):
     ctx.add_sample({"policy": blocks[-1][0], "scenario": blocks[-1][1]})
     rng.shuffle(blocks)
     n, acc = pipeline.drive_vsched(ctx, exe, blocks, SPEC_DIR, "SbaTrace", "Trace.cfg", label="sba", env=ENV)
+    # the same histories on the configuration users run (gcc -O2 -DNDEBUG, no sanitizer): behaviour that depends on what
+    # the optimiser does (a store dropped as dead before free) only exists there
+    exe_rel = build.build_harness("sba_scenario_rel", ["sba_scenario.c"], cflags=["-Wno-unused-function"], wrap=True, variant="rel")
+    rel_blocks = [b for b in blocks if not b[0].startswith("dfs")][: (300 if not thorough else 4000)]
+    n2, acc2 = pipeline.drive_vsched(ctx, exe_rel, rel_blocks, SPEC_DIR, "SbaTrace", "Trace.cfg", label="sbarel", env={"TZ": "UTC"})
+    ctx.extra["executions_on_release_configuration"] = n2
     # data-race scan on the ThreadSanitizer build (what a serialising scheduler cannot see)
     scan = [b for b in blocks if not b[0].startswith("dfs")][: (120 if not thorough else 1500)]
     pipeline.race_scan(ctx, "sba_scenario", "sba_scenario.c", scan)
